@@ -659,6 +659,17 @@ impl ConfigState {
         if let Some(patch_answers) = patch.http_answers.as_ref() {
             merge_custom_http_answers(&mut listener.http_answers, patch_answers);
         }
+        for (code, body) in &patch.answers {
+            if !body.is_empty() {
+                listener.answers.insert(code.clone(), body.clone());
+            }
+        }
+        if let Some(v) = patch.elide_x_real_ip {
+            listener.elide_x_real_ip = Some(v);
+        }
+        if let Some(v) = patch.send_x_real_ip {
+            listener.send_x_real_ip = Some(v);
+        }
         // H2 flood knobs
         if let Some(v) = patch.h2_max_rst_stream_per_window {
             listener.h2_max_rst_stream_per_window = Some(v);
@@ -738,6 +749,14 @@ impl ConfigState {
         if let Some(ref v) = patch.sozu_id_header {
             validate_sozu_id_header(v)?;
         }
+        if let Some(hsts) = patch.hsts {
+            if hsts.enabled.is_none() {
+                return Err(StateError::InvalidValue {
+                    field: "hsts",
+                    reason: "hsts.enabled is required on a listener patch",
+                });
+            }
+        }
 
         let address: SocketAddr = patch.address.into();
         let listener =
@@ -772,6 +791,20 @@ impl ConfigState {
         }
         if let Some(patch_answers) = patch.http_answers.as_ref() {
             merge_custom_http_answers(&mut listener.http_answers, patch_answers);
+        }
+        for (code, body) in &patch.answers {
+            if !body.is_empty() {
+                listener.answers.insert(code.clone(), body.clone());
+            }
+        }
+        if let Some(v) = patch.elide_x_real_ip {
+            listener.elide_x_real_ip = Some(v);
+        }
+        if let Some(v) = patch.send_x_real_ip {
+            listener.send_x_real_ip = Some(v);
+        }
+        if let Some(hsts) = patch.hsts {
+            listener.hsts = Some(hsts);
         }
         // HTTPS-only knobs
         if let Some(ref alpn_wrapper) = patch.alpn_protocols {
